@@ -67,6 +67,7 @@ import (
 const (
 	c14ProtoA = protocol.ConsensusVersion("verif-c14-A") // CatchpointLookback 4, no state proofs
 	c14ProtoB = protocol.ConsensusVersion("verif-c14-B") // CatchpointLookback 6, state proofs every 4 rounds (never produced => stall)
+	c14ProtoC = protocol.ConsensusVersion("verif-c14-C") // ConsensusV39 scaled like A: legacy (V7) catchpoint files, no payouts/heartbeat
 
 	c14CatchpointInterval = 4
 )
@@ -98,6 +99,21 @@ func c14RegisterProtos() {
 		b.StateProofInterval = 4
 		b.StateProofVotersLookback = 2
 		config.Consensus[c14ProtoB] = b
+
+		// legacy catchpoint format: files carry no onlineaccounts / onlineroundparamstail sections and
+		// the catchup accessor rebuilds those tables from the restored accounts and totals.
+		// Based on the last released version with that format (v39): payouts, heartbeats and the V8
+		// format were enabled together in v40, so no real protocol combines them with legacy files.
+		c := config.Consensus[protocol.ConsensusV39]
+		c.ApprovedUpgrades = map[protocol.ConsensusVersion]uint64{}
+		c.SeedLookback = a.SeedLookback
+		c.SeedRefreshInterval = a.SeedRefreshInterval
+		c.MaxBalLookback = a.MaxBalLookback
+		c.MaxTxnLife = a.MaxTxnLife
+		c.CatchpointLookback = a.CatchpointLookback
+		c.StateProofInterval = 0
+		c.RewardsRateRefreshInterval = a.RewardsRateRefreshInterval
+		config.Consensus[c14ProtoC] = c
 
 		// MakeLabel logs through logging.Base() at Info level; keep the test output readable.
 		// go-deadlock's lock-order bookkeeping (a stack capture per Lock) is a debugging aid that
@@ -987,7 +1003,11 @@ func c14HistAssets(t testing.TB, dir string, proto protocol.ConsensusVersion, ro
 // c14HistAccounts: account creation / closing / re-creation, key registration on and off,
 // rekeying, empty blocks; online stake changes in consecutive rounds.
 func c14HistAccounts(t testing.TB, dir string, proto protocol.ConsensusVersion, rounds int) *c14History {
-	b := c14NewBuilder(t, "accounts", proto, dir)
+	return c14HistAccountsNamed(t, dir, "accounts", proto, rounds)
+}
+
+func c14HistAccountsNamed(t testing.TB, dir string, name string, proto protocol.ConsensusVersion, rounds int) *c14History {
+	b := c14NewBuilder(t, name, proto, dir)
 	a := b.gen.addrs
 	f := b.gen.fresh
 	b.block(c14Pay(a[2], f[0], 1_000_000), c14Pay(a[2], f[1], 1_000_000))                               // r1
